@@ -100,7 +100,7 @@ class Case:
             l.append("validator " + self.validator)
         if self.printer:
             l.append("printer 1")
-        for k in ("highlight", "signals", "paste", "helper_panic_at", "auto_add", "printers", "printers_late", "linger", "stdout_full", "max_hist"):
+        for k in ("highlight", "signals", "paste", "helper_panic_at", "auto_add", "printers", "printers_late", "linger", "stdout_full", "max_hist", "tab_stop", "indent_size", "prompt_limit"):
             if k in self.meta:
                 l.append("%s %s" % (k, self.meta[k]))
         for ks, cmd in self.binds:
@@ -122,6 +122,9 @@ class Case:
             kv.append("hints=" + ",".join(self.s(c) for c in self.hints))
         for ks, cmd in self.binds:
             kv.append("bind=%s %s" % (ks, cmd))
+        for k in ("tab_stop", "indent_size", "prompt_limit"):
+            if k in self.meta:
+                kv.append("%s=%s" % (k, self.meta[k]))
         toks = []
         prints = self.meta.get("prints") or {}
         for k, c in enumerate(chunks):
@@ -438,7 +441,8 @@ def c01_cases(tier, seed):
         if rng.random() < 0.3:
             t = t.replace(" ", "\n", 2)
         k = rng.randint(0, len(t))
-        cases.append(Case(gen_vi_ops(rng, t), mode="vi", initial=(t[:k], t[k:]), timeout=0, prompt="> ", meta={}))
+        cases.append(Case(gen_vi_ops(rng, t), mode="vi", initial=(t[:k], t[k:]), timeout=0, prompt="> ",
+                          meta={"indent_size": rng.choice([1, 3, 4, 8])} if rng.random() < 0.4 else {}))
     # every operator with every character search (to / till, forward / backward), on characters that do occur, then put / undo
     for op in ("d", "y", "c"):
         for cs in ("f", "t", "F", "T"):
@@ -527,7 +531,8 @@ def c01_cases(tier, seed):
             initial = None
         cases.append(Case(keys, mode=mode, history=hist, initial=initial, timeout=0 if mode == "vi" else rng.choice(["none", 0]),
                           prompt=rng.choice(["> ", "", "日> "]), binds=binds, hints=hints,
-                          printer=rng.random() < 0.2, meta={}))
+                          printer=rng.random() < 0.2,
+                          meta=({"tab_stop": rng.choice([1, 2, 4, 16]), "indent_size": rng.choice([1, 4])} if rng.random() < 0.2 else {})))
     return cases
 
 
@@ -638,7 +643,8 @@ def c14_cases(tier, seed):
         keys.append("Enter")
         cases.append(Case(keys, mode=mode, completion=ct, cands=cands, initial=mk_initial(rng, 0.3, ["f", "o", " ", "b", "a", "é"]),
                           timeout=0 if mode == "vi" else rng.choice(["none", 0]), prompt=rng.choice(["> ", "日> "]),
-                          cols=rng.choice([20, 12, 32, 33, 34]) if wide else rng.choice([80, 80, 30])))
+                          cols=rng.choice([20, 12, 32, 33, 34]) if wide else rng.choice([80, 80, 30]),
+                          meta=({"prompt_limit": rng.choice([0, 1, 2, 3])} if rng.random() < 0.25 else {})))
     return cases
 
 
